@@ -1,6 +1,7 @@
 import PPLV.WR.ClosureProofsBDS
 import PPLV.WR.ClosureProofsOct
 import PPLV.WR.ClosureProofsDeduceOct
+import PPLV.WR.ClosureProofsFW
 import Mathlib.Tactic.IntervalCases
 import Mathlib.Tactic.NormNum
 /-!
@@ -18,6 +19,11 @@ float, overflow to `+∞`).  `γ m` is the set of valuations `ℕ → ℚ` satis
   not rounded above it (true of every integer type; `upCeil_dec`).
 * a firing emptiness test is right: `empty_sound`, `incEmpty_sound`, `oct_empty_sound`,
   `incOct_empty_sound`, `tight_empty_sound` (no *integer* point).
+* exact arithmetic (`up = upId`, `mpq_class`), `BD_Shape`: `closure_exact` (the closed matrix is the
+  canonical tightest one: same points, non-empty, every finite entry attained, every `+∞` entry
+  unbounded), `empty_iff_exact` (the emptiness test fires iff the shape is empty),
+  `closure_canonical` (closed matrices of equal non-empty shapes are equal).  Not `_partial`; what is
+  missing is the analogue for `strong_closure_assign` (octagons).
 * deduction helpers: `deduce_v_minus_u_sound`, `deduce_u_minus_v_sound`, `deduce_v_pm_u_sound`,
   `deduce_minus_v_pm_u_sound`.
 -/
@@ -84,6 +90,61 @@ def exBE : DBM 2 := DBM.ofLists 2
 example : DBM.closureEmpty upId exBE = true := by decide +kernel
 example : DBM.γ exBE = ∅ := empty_sound upId upId_sound exBE (by decide +kernel)
 example : DBM.γ exBE = ∅ := incEmpty_sound upCeil upCeil_sound 1 (by norm_num) exBE (by decide +kernel)
+
+/-! ## exact arithmetic: the closed matrix is canonical (`BD_Shape<mpq_class>`) -/
+
+/-- With exact arithmetic and a silent emptiness test, `shortest_path_closure_assign` leaves the
+canonical matrix of the shape: it has the same points, the shape is non-empty, and for `i ≠ j` a
+finite entry is the maximum of `x_j - x_i` over the shape (attained), an infinite entry means that
+`x_j - x_i` is unbounded above on the shape. -/
+theorem closure_exact {n : ℕ} (m : DBM n) (hne : DBM.closureEmpty upId m = false) :
+    DBM.γ (DBM.closure upId m) = DBM.γ m ∧ (DBM.γ m).Nonempty ∧
+    ∀ i j, i ≤ n → j ≤ n → i ≠ j →
+      (∀ w : ℚ, (DBM.closure upId m).e i j = fin w →
+        (∀ x ∈ DBM.γ m, DBM.val x j - DBM.val x i ≤ w) ∧ ∃ x ∈ DBM.γ m, DBM.val x j - DBM.val x i = w) ∧
+      ((DBM.closure upId m).e i j = pinf → ∀ B : ℚ, ∃ x ∈ DBM.γ m, B ≤ DBM.val x j - DBM.val x i) := by
+  have hs := closure_sound upId upId_sound m
+  refine ⟨Set.Subset.antisymm (fun x hx i j hi hj => ExtRat.le_trans' (hx i j hi hj) (hs.2 i j hi hj)) hs.1,
+    DBM.closure_nonempty m hne, fun i j hi hj hij => ⟨fun w hw => ⟨fun x hx => ?_, ?_⟩, ?_⟩⟩
+  · have := hs.1 hx i j hi hj
+    rw [hw, ExtRat.fin_le_fin] at this
+    exact this
+  · exact (DBM.closure_tight m hne hi hj hij).1 w hw
+  · exact (DBM.closure_tight m hne hi hj hij).2
+
+/-- exact arithmetic: the emptiness test of the closure decides emptiness. -/
+theorem empty_iff_exact {n : ℕ} (m : DBM n) : DBM.closureEmpty upId m = true ↔ DBM.γ m = ∅ := by
+  constructor
+  · exact empty_sound upId upId_sound m
+  · intro h
+    cases hc : DBM.closureEmpty upId m with
+    | true => rfl
+    | false =>
+      obtain ⟨x, hx⟩ := DBM.closure_nonempty m hc
+      exact absurd (h ▸ hx : x ∈ (∅ : Set (ℕ → ℚ))) (Set.notMem_empty x)
+
+/-- exact arithmetic: two non-empty shapes with the same points have the same closed matrix. -/
+theorem closure_canonical {n : ℕ} (m₁ m₂ : DBM n) (h₁ : DBM.closureEmpty upId m₁ = false)
+    (h₂ : DBM.closureEmpty upId m₂ = false) (heq : DBM.γ m₁ = DBM.γ m₂) :
+    ∀ i j, i ≤ n → j ≤ n → (DBM.closure upId m₁).e i j = (DBM.closure upId m₂).e i j :=
+  fun i j hi hj => DBM.closure_canonical m₁ m₂ h₁ h₂
+    (fun x => ⟨fun h => (heq ▸ h : x ∈ DBM.γ m₂), fun h => (heq ▸ h : x ∈ DBM.γ m₁)⟩) hi hj
+
+-- non-vacuity on `exB` (`0 ≤ x₀ ≤ 3`, `x₁ - x₀ ≤ 1`): the entry `x₁ ≤ 4` is attained
+example : ∃ x ∈ DBM.γ exB, DBM.val x 2 - DBM.val x 0 = 4 :=
+  ((closure_exact exB (by decide +kernel)).2.2 0 2 (by norm_num) (by norm_num) (by norm_num)).1 4
+    (by decide +kernel) |>.2
+example : ∀ B : ℚ, ∃ x ∈ DBM.γ exB, B ≤ DBM.val x 1 - DBM.val x 2 :=
+  ((closure_exact exB (by decide +kernel)).2.2 2 1 (by norm_num) (by norm_num) (by norm_num)).2
+    (by decide +kernel)
+example : DBM.closureEmpty upId exBE = true := (empty_iff_exact exBE).2
+  (empty_sound upId upId_sound exBE (by decide +kernel))
+/-- the same shape as `exB` with the redundant `x₁ ≤ 7` added -/
+def exB' : DBM 2 := DBM.ofLists 2
+  [[pinf, fin 3, fin 7],
+   [fin 0, pinf, fin 1],
+   [pinf, pinf, pinf]]
+example : (DBM.closure upId exB').e 0 2 = (DBM.closure upId exB).e 0 2 := by decide +kernel
 
 /-! ## octagonal shapes -/
 
